@@ -153,8 +153,19 @@ StartEndStepIdx(f, n) ==
      ELSE IF st > 0 THEN Up(s, e, st, n) ELSE Down(s, e, st, n)
 
 \* ------------------------------------------------------------------ filters (small menu; full scripts are C12)
+\* the values a sub-path `@.k<fr>` of a script yields, fr = wildcard or a (strict-region) slice
+SubVals(fr, n) == IF fr.f = "wild" THEN (IF IsArr(n) THEN n.a ELSE IF IsObj(n) THEN n.o ELSE <<>>)
+                  ELSE IF IsArr(n) THEN LET ix == SliceIdx(fr, Len(n.a)) IN [j \in 1..Len(ix) |-> n.a[ix[j] + 1]] ELSE <<>>
+(* "mm"  `@.ka<fa> == @.kb<fb>`: both operands multi-valued; true when SOME pair of values is equal (scalars)            *)
+(* "eqr" `@.key == $.rk`: the right operand is taken from the ROOT of the evaluation; Bind (below) copies it into the   *)
+(*       fragment (hr = the root has the member, rv = its value) before Locs runs, so that Kids needs no root argument. *)
 FilterTrue(f, e) ==
-  CASE f.op = "eqk" -> HasKey(e, f.key) /\ Member(e, f.key) = f.c
+  CASE f.op = "mm" -> HasKey(e, f.ka) /\ HasKey(e, f.kb) /\
+                      LET A == SubVals(f.fa, Member(e, f.ka))
+                          B == SubVals(f.fb, Member(e, f.kb)) IN
+                      \E i \in 1..Len(A), j \in 1..Len(B) : ~IsCont(A[i]) /\ A[i] = B[j]
+    [] f.op = "eqr" -> "hr" \in DOMAIN f /\ f.hr /\ HasKey(e, f.key) /\ Member(e, f.key) = f.rv
+    [] f.op = "eqk" -> HasKey(e, f.key) /\ Member(e, f.key) = f.c
     [] f.op = "gtk" -> HasKey(e, f.key) /\ IsInt(Member(e, f.key)) /\ IsInt(f.c) /\ Member(e, f.key).i > f.c.i
     [] f.op = "exk" -> HasKey(e, f.key)
     [] f.op = "eqs" -> e = f.c
@@ -200,7 +211,15 @@ LocsR(path, n, pre, oks, root) ==
             [] f.f \in {"at", "bracket"} -> LocsR(rest, n, pre, oks, root)
             [] f.f = "desc" -> FlatMap(LAMBDA d : LocsR(rest, d.n, d.loc, oks \o Free(Len(d.loc) - Len(pre)), root), DescNodes(n, pre))
             [] OTHER -> FlatMap(LAMBDA k : LocsR(rest, k.n, Append(pre, k.s), Append(oks, [o |-> k.o, r |-> k.r]), root), Kids(f, n))
-Locs(path, root) == LocsR(path, root, <<>>, <<>>, root)
+\* copy what a script reads from the root (`$.rk`) into its filter fragment
+BindF(f, root) == IF f.f = "filter" /\ f.op = "eqr"
+                  THEN [x \in (DOMAIN f) \cup {"hr", "rv"} |->
+                          IF x = "hr" THEN HasKey(root, f.rk)
+                          ELSE IF x = "rv" THEN (IF HasKey(root, f.rk) THEN Member(root, f.rk) ELSE [z |-> 0])
+                          ELSE f[x]]
+                  ELSE f
+Bind(path, root) == [i \in 1..Len(path) |-> BindF(path[i], root)]
+Locs(path, root) == LocsR(Bind(path, root), root, <<>>, <<>>, root)
 Vals(E) == [i \in 1..Len(E) |-> E[i].val]
 LocsOnly(E) == [i \in 1..Len(E) |-> E[i].loc]
 Get(path, root) == Vals(Locs(path, root))
